@@ -38,6 +38,12 @@ def send_sig(v, bid, variant, path):
             if sv == "UNKNOWN" and e.get("msg") is not None:
                 # the message was built in a multi-assigned local (e.g. re-built from a borrow in a merged arm): take this path's value
                 sv, pl = send_fields(resolve_phis(path, i, e.msg))
+                if sv != "UNKNOWN":
+                    d = dict(e.d)
+                    d.update(variant=sv, payload=pl, pseudo=True)
+                    ne = Effect("send", e.site, e.s, **d)
+                    ne.tracing = e.tracing
+                    e = ne      # the effect as it reads on this path (same site)
             pk = payload_kind(v, bid, variant, pl)
             if sv == "INCOMING" and variant is not None and v.family != "share" and pl == ("param", bid, 2):
                 # the incoming message forwarded as it is (merged relay arms): in this arm it is this arm's variant
@@ -856,14 +862,19 @@ def _escape_lemmas(ctx, v):
                 continue
             args = e.get("args") or []
             if e.kind == "send":
-                if e.payload is not None and e.variant != "Handshake":
-                    for x in walk(e.payload):
-                        if x[0] == "agg" and x[1] == "closure" and x[2] in downs:
-                            bad_down.append("talkback sent as %s payload at %s" % (e.variant, e.loc))
-                if e.variant == "Handshake" and e.payload is not None and e.payload[0] == "agg" and e.payload[2] in downs:
-                    n += 1
-                    if v.cls_of(e)[0] not in ("SINK", "SINKLIST"):
-                        bad_down.append("talkback handed to %s at %s" % (v.cls_of(e)[0], e.loc))
+                alts = [(e.variant, e.payload)]
+                if e.variant == "UNKNOWN" and e.get("msg") is not None and e.msg[0] == "phi":
+                    alts = [send_fields(a) for a in e.msg[1]]       # a message built in `let out = match ..`: judged per alternative
+                for (sv, pl) in alts:
+                    if pl is not None and sv != "Handshake":
+                        for x in walk(pl):
+                            if x[0] == "agg" and x[1] == "closure" and x[2] in downs:
+                                bad_down.append("talkback sent as %s payload at %s" % (sv, e.loc))
+                for (sv, pl) in alts:
+                    if sv == "Handshake" and pl is not None and pl[0] == "agg" and pl[2] in downs:
+                        n += 1
+                        if v.cls_of(e)[0] not in ("SINK", "SINKLIST"):
+                            bad_down.append("talkback handed to %s at %s" % (v.cls_of(e)[0], e.loc))
                 continue
             if e.kind in ("alias",):
                 continue
@@ -2662,7 +2673,10 @@ def demand_lemmas(ctx, v):
         for p in returning(v.arm(ui, "Handshake")):
             sig = send_sig(v, ui, "Handshake", p)
             st = [i for i, e in ev_effects(p) if e.kind == "cell" and e.op == "store" and base_key(e.cell) in inner_k]
-            if not ([(s[0], s[1]) for s in sig] == [("UPTB", "Pull")] and st and st[0] < sig[0][4] and recv_load(sig[0][3]) and base_key(recv_load(sig[0][3])[1]) in inner_k):
+            via_cell = bool(sig) and recv_load(sig[0][3]) is not None and base_key(recv_load(sig[0][3])[1]) in inner_k
+            # or the talkback that was just stored, used directly (`store(Some(Arc::clone(&source))); source(Pull)`)
+            direct = bool(sig) and strip_refs(strip_clone(sig[0][3].recv)) == incoming_payload(ui, "Handshake")
+            if not ([(s[0], s[1]) for s in sig] == [("UPTB", "Pull")] and st and st[0] < sig[0][4] and (via_cell or direct)):
                 probs.append("inner greeting is not: store talkback; pull it once")
         ctx.ob("REL-1:1", v.key(ui, "Handshake", "REL-1:1", "inner-pulled-on-greeting"), not probs, "each inner is stored and pulled exactly once on greeting" if not probs else probs[0], v.loc(ui))
         lemma_rel_one(ctx, v, ui, "Data", "SINK", "Data", "in", what="inner-data-relayed", only_class=("SINK", "UPTB"))
@@ -3501,6 +3515,20 @@ def interval_lemmas(ctx, v):
                     probs.append("the value sent is not the counter's value before this emission's increment")
                 local_counter = True
                 continue
+            if pl is not None and any(x[0] == "phi" for x in walk(pl)):
+                pl = resolve_phis(p, s[4], pl)
+            # `let (Ok(i) | Err(i)) = c.fetch_update(.., |i| Some(i.wrapping_add(1)))`: the previous value, whichever variant carries it,
+            # of an update whose closure always installs its argument plus one - that is fetch_add(1)
+            inner_rmw = pl
+            while inner_rmw is not None and inner_rmw[0] in ("someof", "field", "downcast"):
+                inner_rmw = inner_rmw[1]
+            if s[0] == "SINK" and s[1] == "Data" and inner_rmw is not None and inner_rmw[0] == "rmw" and inner_rmw[2] == "fetch_update":
+                ue = [x for _, x in ev_effects(p) if x.kind == "atomic" and x.site == inner_rmw[4]]
+                rets = closure_returns(v, ue[0].closure) if ue and ue[0].closure else []
+                unit = len(rets) == 1 and not rets[0][0] and rets[0][1] is not None and rets[0][1][0] == "agg" and rets[0][1][2] == "Option::Some" \
+                    and lin(rets[0][1][3][0]) == (("param", ue[0].closure, 2), 1)
+                if unit:
+                    pl = ("rmw", inner_rmw[1], "fetch_add", ("const", "usize", "1_usize", 1), inner_rmw[4])
             if not (s[0] == "SINK" and s[1] == "Data" and pl is not None and pl[0] == "rmw" and pl[2] == "fetch_add" and pl[3][0] == "const" and pl[3][3] == 1):
                 probs.append("the task does not send Data(i.fetch_add(1))")
                 continue
@@ -3514,7 +3542,7 @@ def interval_lemmas(ctx, v):
         c = v.op.cells.get(ck[0])
         if not (c and c.scope == "SUBSCRIPTION" and cell_init(v, ck[0]) == 0):
             probs.append("the counter is not a per-subscription cell starting at 0")
-        if not all(b == t and e.kind == "atomic" and e.op == "fetch_add" for e, b in cell_writes(v, ck[0])):
+        if not all(b == t and e.kind == "atomic" and e.op in ("fetch_add", "fetch_update") for e, b in cell_writes(v, ck[0])):
             probs.append("the counter is written outside the task's increment")
     ctx.ob("REL-1:1", v.key(t, None, "REL-1:1", "counts-from-zero"), not probs and n, "each emission carries the value its own unit increment returned; counter per subscription from 0" if not probs else "; ".join(sorted(set(probs))), v.loc(t))
     _interval_cycle(ctx, v)
@@ -3658,6 +3686,18 @@ def discharge_panic(v, b, var, p, i, e, hint, tbcells):
                 "the arm's variant cannot arrive (A4/A5; DOWN.D by type, W1)" if ok else "this arm is reachable under the protocol"))
     if hint in ("expect", "unwrap", "unwrap_unchecked"):
         subj = e.subject
+        if any(x[0] == "phi" for x in walk(subj)):
+            # the unwrapped value went through a helper's `-> Option<..>` (`cell.load_full()?; ..; Some(())`): what it is on this path
+            rs = resolve_phis(p, i, subj)
+            while rs[0] == "someof" and rs[1][0] == "agg":
+                rs = rs[1]
+            if rs[0] == "agg" and rs[1] == "adt" and rs[2] in ("Option::Some", "Result::Ok"):
+                return ("K-value", True, "the unwrapped value is Some / Ok on this path by construction")
+            if rs[0] == "agg" and rs[1] == "adt" and rs[2] == "Option::None":
+                nones = [a for (_, a, _) in guards_before(p, i) if ((a[0] == "opt" and a[2] == "none") or (a[0] == "discr" and a[2] == 0)) and a[1][0] == "cellload"]
+                if nones:
+                    shim = type("NoneAsExpect", (), {"subject": ("someof", nones[-1][1]), "tracing": False, "loc": e.loc, "site": e.site, "kind": "panic"})()
+                    return discharge_panic(v, b, var, p, i, shim, "expect", tbcells)
         loads = [x for x in walk(subj) if x[0] == "cellload"]
         locks = [x for x in walk(subj) if x[0] == "lock"]
         if subj[0] == "lock":
